@@ -677,6 +677,18 @@ def check_known_classes(chk, prop):
             if got != s:
                 chk.finding("%s:lexer:C10.BareString:%s" % (prop, cls), "unquoted string %r parsed as %r" % (s, got if err is None else err),
                             {"text": "A = C(P = %s)" % s, "expected": s, "observed": got, "error": err})
+    # quoted strings with malformed escape sequences are malformed text: a syntax error, nothing else
+    for lexeme in (r'"C:\users\x.csv"', r'"a\xZZ"', r"'\N{bogus}'", r'"\U0001"'):
+        chk.cov["evaluations"] += 1
+        try:
+            Parser().parse("A = C(P = %s)" % lexeme)
+            got = "accepted"
+        except SyntaxError:
+            got = "SyntaxError"
+        except BaseException as e:
+            got = type(e).__name__
+        if got not in ("SyntaxError",):
+            chk.finding("%s:lexer:C10.NotSyntaxError:malformed-escape" % prop, "quoted string %s with a malformed escape: %s" % (lexeme, got), {"text": "A = C(P = %s)" % lexeme})
     # layout after a bare string that starts with a plain-only character
     for text, want in (("A = C(P = /a/b  )", "/a/b"), ("A = C(P = /a/b # c\n)", "/a/b"), ("A = C(P = /a/b\t, Q = 1)", "/a/b")):
         chk.cov["evaluations"] += 1
